@@ -304,7 +304,15 @@ where
         while self.state != State::Finished {
             if self.state == State::Incomplete {
                 // resume incomplete search after previous read_record_set(), or
-                if !try_opt!(self.resume_incomplete_search(is_new)) {
+                let found = match self.resume_incomplete_search(is_new) {
+                    Ok(found) => found,
+                    Err(e) => {
+                        // the set must not refer to a buffer that was not copied
+                        rset.npos = 0;
+                        return Some(Err(e));
+                    }
+                };
+                if !found {
                     return None;
                 }
                 // reset state to Positioned
